@@ -328,7 +328,51 @@ pub fn run_c06(ctx: &Ctx) {
             }
         }
     });
-    ctx.class("frame-sequences", 2 * nseq as u64);
+    // frames whose plain payload is EMPTY (unit values): "01 00" repeated, decoded frame-at-a-time as ()
+    for nframes in 1..=4usize {
+        for with_final in [true, false] {
+            let mut buf = vec![];
+            let mut bounds = vec![];
+            for i in 0..nframes {
+                buf.push(0x01);
+                if i + 1 < nframes || with_final {
+                    buf.push(0x00);
+                }
+                bounds.push(buf.len());
+            }
+            let total = buf.len();
+            let r = with_arena(total + 16, |a| {
+                let inp = a.place(&buf, true);
+                let base = inp.as_ptr() as usize;
+                trap(|| {
+                    with_shape(&Shape::Unit, || -> Result<(), String> {
+                        let mut window: &mut [u8] = inp;
+                        for (i, b) in bounds.iter().enumerate() {
+                            let (Dyn(v), rest) = postcard::take_from_bytes_cobs::<Dyn>(window).map_err(|e| format!("unit frame {i}: {e:?}"))?;
+                            if v != Val::Unit {
+                                return Err(format!("unit frame {i}: value {:?}", v));
+                            }
+                            let off = rest.as_ptr() as usize - base;
+                            if off != *b || rest.len() != total - b {
+                                return Err(format!("unit frame {i}: remainder at {} len {}, expected at {}", off, rest.len(), b));
+                            }
+                            window = rest;
+                        }
+                        Ok(())
+                    })
+                })
+            });
+            calls.fetch_add(nframes as u64, Ordering::Relaxed);
+            let r = match r {
+                Ok(x) => x,
+                Err(p) => Err(format!("panic: {p}")),
+            };
+            if let Err(e) = r {
+                ctx.violation("cobs-frame-sequence", e, (4u64 << 32) | (nframes as u64) << 1 | with_final as u64, json!({"unit_frames": nframes, "final_sentinel": with_final, "buffer": hex(&buf)}));
+            }
+        }
+    }
+    ctx.class("frame-sequences", 2 * nseq as u64 + 8);
     let st = states.load(Ordering::Relaxed);
     let tr = transitions.load(Ordering::Relaxed);
     let total = calls.load(Ordering::Relaxed) + tr;
